@@ -82,6 +82,13 @@ def ev(v, val, hooks=None):
         if op == 'regex' and isinstance(a[0], (str, bytes)):
             import re
             return re.compile(a[0], a[1])
+        if op in ('vor', 'vand'):
+            x = None
+            for t in a:
+                x = ev(t, val, hooks)
+                if bool(x) == (op == 'vor'):
+                    return x
+            return x
         if op == 'and':
             return all(ev(x, val, hooks) for x in a)
         if op == 'or':
